@@ -261,6 +261,11 @@ func rewrite(src []byte, pkg string) ([]byte, []string, error) {
 				return true
 			})
 			d.Body.List = append([]ast.Stmt{tick()}, d.Body.List...)
+			// census hook: parseExpr(expr) is the one place where an expression is evaluated
+			if d.Name.Name == "parseExpr" && len(d.Type.Params.List) == 1 && len(d.Type.Params.List[0].Names) == 1 {
+				arg := d.Type.Params.List[0].Names[0].Name
+				d.Body.List = append([]ast.Stmt{&ast.ExprStmt{X: &ast.CallExpr{Fun: ast.NewIdent("vexpr"), Args: []ast.Expr{ast.NewIdent(recv), ast.NewIdent(arg)}}}}, d.Body.List...)
+			}
 		}
 	}
 	// vResetGlobals re-initialises every package-level variable of the runtime, so
